@@ -101,9 +101,9 @@ type nameRef struct {
 }
 
 type retPoint struct {
-	block *ssa.BasicBlock
-	idx   int
-	bind  ssa.Value // value to bind results to (may be nil)
+	block      *ssa.BasicBlock
+	idx        int
+	bind       ssa.Value // value to bind results to (may be nil)
 	isDeferRun bool
 }
 
@@ -172,15 +172,15 @@ type State struct {
 	ghost  map[string]*Term
 	frames []*Frame
 	// snapshot at function entry (for old())
-	entry *State
-	dead bool
-	havocEpoch int
-	released []*Term
-	underHavoc []*Term
-	qfacts []qfact
-	qdone  map[string]bool
-	idxTerms []*Term
-	colW   []wrec // writes performed on this path while collecting a loop's write set
+	entry        *State
+	dead         bool
+	havocEpoch   int
+	released     []*Term
+	underHavoc   []*Term
+	qfacts       []qfact
+	qdone        map[string]bool
+	idxTerms     []*Term
+	colW         []wrec   // writes performed on this path while collecting a loop's write set
 	globalHavocs []modLoc // heap-wide havocs already performed (replayed on heap components created later)
 }
 
